@@ -193,6 +193,15 @@ Definition pow_v (libm : libm_t) (a b : val) : result val :=
   if v_is_neg b && v_is_zero a then Err EUndefined
   else bind (result_f a) (fun fa => bind (result_f b) (fun fb => call2 libm 9 fa fb)).
 
+(* binary_pow: square and multiply (Z.pow iterates `exponent` times, which does not evaluate for 0 ^ 2^1000) *)
+Fixpoint pow_pos_sq (x : Z) (p : positive) : Z :=
+  match p with
+  | xH => x
+  | xO p' => let y := pow_pos_sq x p' in y * y
+  | xI p' => let y := pow_pos_sq x p' in x * (y * y)
+  end.
+Definition zpow (x y : Z) : Z := match y with Z0 => 1 | Zpos p => pow_pos_sq x p | Zneg _ => 0 end.
+
 (* ^ : arithmetic_ops::int_pow.  integer ^ integer is exact (C01); every other combination goes through powf *)
 Definition f_is_integral (f : f64) : bool :=      (* f == f.floor() *)
   match Bcompare f (f_floor f) with Some Eq => true | _ => false end.
@@ -204,7 +213,7 @@ Definition ipow_v (libm : libm_t) (a b : val) : result val :=
              (if x =? 1 then Ok (VI 1)
               else if x =? -1 then Ok (VI (if Z.even y then 1 else -1))
               else Err (ETypeFloat x))
-           else Ok (VI (x ^ y))
+           else Ok (VI (zpow x y))
        | _, _ =>
            bind (result_f b) (fun fb =>
              if v_is_neg a && negb (f_is_integral fb) then Err EUndefined
